@@ -825,6 +825,8 @@ def run(tier, seed):
               "a muted/removed tag is modelled by silence from the k-th command on")
     from bind import c08_vendor                   # vendor classes: identification, ndef, dump(), signature, presence
     c08_vendor.stage(ck, tier, seed)
+    from bind import c08_tlv                      # control TLV geometry (reserved bytes inside the data area) judged by TlvTag.tla
+    c08_tlv.stage(ck, tier, seed)
     return ck.finish()
 
 
@@ -832,6 +834,9 @@ def replay(rep, args):
     if rep["replay"].get("kind") == "vendor-case":
         from bind import c08_vendor
         return c08_vendor.replay(rep, args)
+    if rep["replay"].get("kind") == "tlv":
+        from bind import c08_tlv
+        return c08_tlv.replay(rep, args)
     case = rep["replay"]["case"]
     tr = run_case(case)
     verdicts, st = tlc.validate_traces("Trace_TagRead.tla", "Trace_TagRead.cfg", PID + "_replay", [tr], shards=1)
